@@ -535,17 +535,20 @@ def snapshot(ex):
     return dumps, partition(objs)
 
 
-def load_section(ex, name, clsname, cfg, share):
+def load_section(ex, name, clsname, cfg, share, groups=None):
     """what loading a configuration file does for one module: `Mod(name, cls, description, **entries)` with `Param(...)`
     objects (frappy/config.py:52-86, 113-120).  `share` = {key: [section, key']}: the Param object bound to a name once
-    in the file and used for several modules is ONE object in all their sections."""
+    in the file and used for several modules is ONE object in all their sections.  `groups` = {group: [keys]}: `Group(...)`
+    arguments (the named parameters of this module get the property `group`)."""
     import copy
-    from frappy.config import Mod, Param
+    from frappy.config import Mod, Param, Group
     cfg = copy.deepcopy(cfg)
     desc = cfg.pop('description', 'module')
     entries = {k: Param(**v) if isinstance(v, dict) else v for k, v in cfg.items() if v is not None}
     for k, (sec, key) in (share or {}).items():
         entries[k] = ex.cfgs[sec][key]
+    for g, members in (groups or {}).items():
+        entries[g] = Group(*members)
     mod = Mod(name, ex.classes[clsname], desc, **entries)
     mod.pop('name')       # frappy.config.Config.__init__
     return mod
@@ -591,13 +594,13 @@ def run_op(op, ex):
             return 'ok', 'cls:' + op['name'], extra
         if kind == 'load':
             # a module section of the configuration is loaded (no module is created)
-            ex.cfgs[op['name']] = load_section(ex, op['name'], op['cls'], op['cfg'], op.get('share'))
+            ex.cfgs[op['name']] = load_section(ex, op['name'], op['cls'], op['cfg'], op.get('share'), op.get('groups'))
             return 'ok', 'cfg:' + op['name'], extra
         if kind == 'inst':
             section = op.get('from')
             if section is None:       # the section is loaded with this operation, under the name of the module
                 section = op['name']
-                ex.cfgs[section] = load_section(ex, section, op['cls'], op['cfg'], op.get('share'))
+                ex.cfgs[section] = load_section(ex, section, op['cls'], op['cfg'], op.get('share'), op.get('groups'))
             elif section not in ex.cfgs:
                 return 'skipped', None, extra
             obj, outcome_ = create_module(ex, section)
@@ -1137,6 +1140,12 @@ def gen_program(rng, big):
                     op['share'] = {aname: [sec, key]}
             pkeys = {a: est[a] for a in cfg if a in est and isinstance(cfg[a], dict)}
             pkeys.update({a: sections[sk[0]][1][sk[1]] for a, sk in (op.get('share') or {}).items()})
+            if pkeys and rng.random() < 0.3:
+                # Group(...) arguments: the named parameters of THIS module get the property `group`
+                members = rng.sample(sorted(pkeys), min(len(pkeys), rng.choice([1, 1, 2])))
+                if op.get('share') and rng.random() < 0.6:
+                    members = sorted(set(members) | set(op['share']))
+                op['groups'] = {rng.choice(['grp', 'g1']): members}
             if rng.random() < 0.35:
                 # as the server does it: the section is loaded with the configuration, the module is created from it afterwards
                 ops.append(dict(op, op='load'))
@@ -1244,20 +1253,25 @@ def wire_entries(op):
     return out + [[a, {'shared': list(sk)}] for a, sk in shared.items()]
 
 
+def wire_groups(op):
+    """the Group(...) arguments of a module section: [[group name (as property value), [keys]]]"""
+    return [[jtext(g), list(members)] for g, members in (op.get('groups') or {}).items()]
+
+
 def wire_op(op, outcome, mro, loaded=True):
     ok = outcome == 'ok'
     if op['op'] == 'class':
         return {'op': 'class', 'ok': ok, 'name': op['name'], 'mro': mro or [op['name']], 'module': not op.get('mixin'),
                 'bases': list(op['bases']), 'decls': [[a, wire_decl(d)] for a, d in op['decls']]}
     if op['op'] == 'load':
-        return {'op': 'load', 'ok': ok, 'name': op['name'], 'entries': wire_entries(op)}
+        return {'op': 'load', 'ok': ok, 'name': op['name'], 'entries': wire_entries(op), 'groups': wire_groups(op)}
     if op['op'] == 'inst':
         # created from a section of the loaded configuration; without `from` the section is loaded by this operation
         # (also when the creation fails)
         if op.get('from') is not None:
             return {'op': 'inst', 'ok': ok, 'name': op['name'], 'cls': op['cls'], 'section': op['from'], 'load': None}
         return {'op': 'inst', 'ok': ok, 'name': op['name'], 'cls': op['cls'], 'section': op['name'],
-                'load': wire_entries(op) if loaded else None}
+                'load': wire_entries(op) if loaded else None, 'groups': wire_groups(op)}
     if op['kind'] == 'write':      # a write changes the value only: not an operation of the model
         return {'op': 'setprop', 'ok': False, 'inst': op['inst'], 'par': op['par'], 'key': 'value', 'val': jtext(canon(op['val']))}
     if op['kind'] == 'setprop':
